@@ -1,4 +1,5 @@
 import Vgi.Model.Keys
+import Vgi.Generated.C33
 /-!
 # C33 — Storage backends never reuse an object key
 
@@ -272,6 +273,21 @@ theorem s3_uploads_unique_with_faults (pfx : List Char) (ups : List (Option Byte
       | some d => simp [s3Upload, ih]
   rw [e ups]
   exact s3_keys_unique pfx _ h
+
+/-! ### Where the draws come from (facts regenerated from the source on every run) -/
+
+/-- **keys_draw_from_os_entropy**: in the CURRENT source the S3 generator `generateUUID` references
+`crypto/rand` and not the clock, the GCS `Upload` references `github.com/google/uuid`, and neither
+storage package imports `math/rand` or `math/rand/v2` at all (a process-global pseudo-random
+source repeats its sequence in every process that starts from the same seed, e.g. under
+`GODEBUG=randautoseed=0`). The lists are `Vgi.Generated.C33`, rewritten by `tools/factgen/c33`. -/
+theorem keys_draw_from_os_entropy :
+    "crypto/rand" ∈ Vgi.Generated.C33.s3GeneratorPkgs ∧
+    "time" ∉ Vgi.Generated.C33.s3GeneratorPkgs ∧
+    "math/rand" ∉ Vgi.Generated.C33.s3Imports ∧ "math/rand/v2" ∉ Vgi.Generated.C33.s3Imports ∧
+    "github.com/google/uuid" ∈ Vgi.Generated.C33.gcsUploadPkgs ∧
+    "math/rand" ∉ Vgi.Generated.C33.gcsImports ∧ "math/rand/v2" ∉ Vgi.Generated.C33.gcsImports := by
+  decide
 
 /-! ### Non-vacuity, and the finding the repair removed -/
 
